@@ -29,7 +29,10 @@ func init() {
 		Assumptions: []string{
 			"Transport.Close unblocks a pending Read/Write (transport contract)",
 		},
-		Rules: []Rule{
+		Rules: append([]Rule{
+			{ID: "C05.E2", Doc: "error filters: a function that is handed an error and returns one never returns a constant nil unless it has seen the argument to be nil (drpcstream, drpcmanager, drpcconn, drpcserver, drpcwire, drpcerr)", Run: func(c *an.Ctx) {
+				errPassRule(c, "drpcwire", "drpcstream", "drpcmanager", "drpcconn", "drpcserver", "drpcerr")
+			}},
 			{ID: "C05.R1", Doc: "manageReader: read errors and HandlePacket errors reach Manager.terminate and leave the loop; read signal set by the first defer", Run: c05r1},
 			{ID: "C05.R4", Doc: "Writer.WriteFrame/Flush: buffer reset after every sink write on all paths; the sink's error is what is returned", Run: c05r4},
 			{ID: "C05.R5", Doc: "no error result of the transport-facing API (Writer, Reader, Stream, Manager constructors) is discarded in library code", Run: c05r5},
@@ -45,8 +48,9 @@ func init() {
 			{ID: "C05.S6", Alias: "C04.R6"},
 			{ID: "C05.S7", Alias: "C03.R4"},
 			{ID: "C05.S8", Alias: "C03.R5"},
+			{ID: "C05.S12", Doc: "containing a transport failure takes no lock cycle: the manager's terminate path and the writer never wait for each other (a failed write that cancels the stream itself while the writer's mutex is held deadlocks the connection)", Alias: "C04.W2"},
 			{ID: "C05.S9", Doc: "the reader is released (pdone) for every packet NewServerStream received, also when creating the stream fails after termination: otherwise the reader never exits and Close hangs", Alias: "C06.R5"},
-		},
+		}, disciplineRules("C05", "drpcwire", "drpcstream", "drpcmanager", "drpcconn", "drpcserver")...),
 	})
 }
 
